@@ -318,7 +318,8 @@ func runBackendWorkload(t *testing.T, workload, backend, serverKind string, conc
 	}
 	vrun.Loop(t, meta, 0, func(c *vrun.Case) vrun.Result {
 		r := runCase(c)
-		if forceConcurrent && r.Verdict == vrun.Violated && !strings.HasPrefix(r.FindingKey, "websocket:") {
+		if forceConcurrent && r.Verdict == vrun.Violated && !strings.HasPrefix(r.FindingKey, "websocket:") && !strings.Contains(r.FindingKey, "-counter") &&
+			!strings.Contains(r.FindingKey, "compressed-while-off") && !strings.Contains(r.FindingKey, "non-binary") {
 			// one defect, one key: whatever breaks first (panic in gorilla's "concurrent write" guard, a frame torn
 			// apart, a write or read error) is a manifestation of unserialised writers
 			r.Witness = map[string]any{"manifestation": r.FindingKey, "clause": r.Clause, "detail": r.Witness}
